@@ -17,10 +17,7 @@ NA = {
     "C18": "literal rendering is a pure function of the literal",
 }
 
-PENDING = {
-    "C05": "claimed in DESIGN.md (engine job) but the check is not built yet; listed here until it is",
-    "C06": "claimed in DESIGN.md (engine job, scoped) but the check is not built yet; listed here until it is",
-}
+PENDING = {}
 
 CHECKS = {
     "C07": dict(engine="svc", level="exploration", design="3",
@@ -55,6 +52,26 @@ CHECKS = {
                      "tempfile.tempdir=None in a forked child as model of a fresh interpreter. Which of two docker metadata wins "
                      "is not stated by the property and not asserted.",
                 technique="deterministic simulation: in-process fake docker playing seeded container plans + I/O fault seams, reference outcome model"),
+    "C05": dict(engine="job", level="exploration", design="4",
+                text="Seeded queries are translated by the real executor, the emitted C++ is compiled with g++ against stand-in "
+                     "frameworks and run by a driver that owns event order, duplicates, job boundaries and restarts. Each of 24 "
+                     "events alone in a fresh job instance fixes its outcome; seeded schedules (permutations, repeats, splits, "
+                     "restart after faulting events, one OS process per segment, 200-delivery jobs) must reproduce it at every "
+                     "delivery, and rows must be conserved. Reference-free; sampling, not proof.",
+                note="Trusted: the stand-in frameworks (sim/job/standin), the typed query generator's vocabulary. Queries rejected by "
+                     "the translator or by g++ are counted and skipped. One recorded finding (aggregate over SelectMany inside an "
+                     "expression) is reported as KNOWN-FINDING.",
+                technique="deterministic simulation: compiled generated job under a simulated framework; seeded event schedules and job restarts vs per-event canonical outcome"),
+    "C06": dict(engine="job", level="fault_enumeration", design="4.3",
+                text="Run-time clauses only: the stand-in event store logs every retrieval (API, container type, bank) of the compiled "
+                     "generated job and the log is checked against the query's e.<Collection>(bank) occurrences (idiom, type, bank, "
+                     "miniAOD tokens created once by consumes<T>(InputTag(bank))); then every retrieval of sampled events is failed in "
+                     "turn: the delivery must fail before any row is filled, without a signal, and a fresh instance must reproduce "
+                     "the event. A third of the jobs are translated after a seeded history (other backend, same executor, replaced "
+                     "collection). Header/link-library requests and metadata validation are NOT decided.",
+                note="Scoped claim (see text). Trusted: stand-in event store semantics for a failed retrieval (ATLAS: FAILURE status, "
+                     "pointer untouched; CMS: invalid handle whose dereference throws).",
+                technique="deterministic simulation: fault enumeration over the event store's retrievals of the compiled generated job + monitored retrieval log"),
 }
 
 ENGINES = [
@@ -64,6 +81,8 @@ ENGINES = [
      "kind_free_text": "rendered runner.sh in a simulated container: stub experiment tools on PATH, per-call fault plan, invocation histories"},
     {"name": "loc", "path": "sim/loc", "serves_properties": ["C17"],
      "kind_free_text": "LocalDataset against a simulated docker (vendored stand-in python_on_whales), optionally chained into the run engine"},
+    {"name": "job", "path": "sim/job", "serves_properties": ["C05", "C06"],
+     "kind_free_text": "generated C++ compiled against stand-in ATLAS/CMS frameworks; driver plays seeded event schedules, restarts and failing retrievals"},
 ]
 
 
